@@ -55,6 +55,11 @@ pub fn alphabet() -> Vec<Job> {
     v.push(Job { name: "L2s 17 xor 28 (known finding: unwinds)".into(), a: l2s.ops[17].mp.clone(), b: l2s.ops[28].mp.clone(), op: Operation::Xor, ft: Ft::F64 });
     v.push(Job { name: "L2s 17 difference 47 (known finding: unwinds)".into(), a: l2s.ops[17].mp.clone(), b: l2s.ops[47].mp.clone(), op: Operation::Difference, ft: Ft::F64 });
     v.push(Job { name: "G33 495 union 186 in f32".into(), a: g33.m[495].clone(), b: g33.m[186].clone(), op: Operation::Union, ft: Ft::F32 });
+    // an f64 call with a crossing about 5e-8 (relative) before a segment's end point: sensitive to any hidden
+    // tolerance or scale that an earlier call (e.g. the f32 one) may have left behind
+    let square = geo_types::MultiPolygon(vec![poly_from(&[(0.0, 0.0), (10.0, 0.0), (10.0, 10.0), (0.0, 10.0)], &[])]);
+    let needle = geo_types::MultiPolygon(vec![poly_from(&[(9.99999992, -1.0), (10.0, 1.0), (5.0, 5.0)], &[])]);
+    v.push(Job { name: "square intersection triangle crossing just before a vertex (f64)".into(), a: square, b: needle, op: Operation::Intersection, ft: Ft::F64 });
     v
 }
 
